@@ -599,7 +599,7 @@ pub fn c06_judge(ctx: &Ctx, src: &str) -> Result<Option<(Spec, Naming)>, Failure
     std::fs::write(scratch.dir.join("alone.rs"), format!("#![allow(warnings)]\n{UNIVERSE_SRC}\n#[path = \"g.rs\"]\npub mod g;\n")).ok();
     let alone = e2::rustc(&scratch.dir, "alone.rs", "alone.rmeta", true);
     if !alone.ok {
-        return Err(Failure::internal("module-does-not-compile", format!("C05 judges this: {}", normalise_diag(&alone.diagnostics)), case));
+        return Err(Failure::internal("skip:module-does-not-compile", format!("C05 judges this: {}", normalise_diag(&alone.diagnostics)), case));
     }
     Err(Failure::new(
         "client-does-not-typecheck",
@@ -617,10 +617,18 @@ fn c06_test(ctx: &Ctx, raw: &RawHyg, st: &mut Stats) -> Result<(), Failure> {
     let mut ch = Chooser::new(&raw.choices);
     let adv = adversarial_naming(&spec, &mut ch);
     let src = render_plain(&spec::to_rfile(&spec, &adv.naming).atoms());
-    let Some(_) = c06_judge(ctx, &src)? else {
-        st.discard("kiki does not accept the renamed grammar");
-        return Ok(());
-    };
+    match c06_judge(ctx, &src) {
+        Ok(Some(_)) => {}
+        Ok(None) => {
+            st.discard("kiki does not accept the renamed grammar");
+            return Ok(());
+        }
+        Err(f) if f.internal && f.kind.starts_with("skip:") => {
+            st.discard("emitted module does not compile on its own (C05 judges that)");
+            return Ok(());
+        }
+        Err(f) => return Err(f),
+    }
     let all_skip = spec.nts.iter().flat_map(|n| &n.variants).any(|v| !v.fields.is_empty() && !v.has_used());
     let mixed = spec.nts.iter().flat_map(|n| &n.variants).any(|v| v.has_used() && v.fields.iter().any(|f| !f.used));
     let both = spec.nts.iter().any(|n| n.is_enum) && spec.nts.iter().any(|n| !n.is_enum);
